@@ -93,9 +93,9 @@ type c09Placement struct{ k, j, m int }
 
 func c09Sizes(tier string) (enum, random, eval int) {
 	if tier == "thorough" {
-		return len(c09Shapes) * 2 * 60 * 7 * 3, 150000, 60000
+		return len(c09Shapes) * 2 * 60 * 7 * 3, 2500000, 800000
 	}
-	return len(c09Shapes) * 2 * 60 * 7 * 3, 3000, 3000
+	return len(c09Shapes) * 2 * 60 * 7 * 3, 40000, 30000
 }
 
 func c09Run(rc *sim.RunCtx) {
@@ -511,9 +511,9 @@ func init() {
 		},
 		RaceRuns: func(tier string) int {
 			if tier == "thorough" {
-				return 6000
+				return 90000
 			}
-			return 600
+			return 6000
 		},
 		Run:          c09Run,
 		ShrinkBudget: 1500,
